@@ -276,6 +276,7 @@ class Scenario:
         # meanwhile have been deactivated, but it cannot be pending again
         st = self._inst_state(i)
         self._assume(b_not(oracle.i_eq(st, code('pending'))))
+        self.last_args = {'job': j, 'att': a, 'inst': i}
         self.begin('schedule_job')
         return self.w.call('schedule_job', [1, V(j), V(a), V(i)])
 
@@ -305,6 +306,7 @@ class Scenario:
         st = self.inp.int(f'{tag}_new_state', options=oracle.TERMINAL)
         t0, t1, ts = self.inp.int(f'{tag}_start'), self.inp.int(f'{tag}_end'), self.inp.int(f'{tag}_ts')
         reason = self.inp.int(f'{tag}_reason', options=[code(r) for r in model.REASONS])
+        self.last_args = {'job': j, 'att': a, 'inst': i, 'new_state': st}
         self.begin('mark_job_complete')
         return self.w.call('mark_job_complete', [1, V(j), V(a), V(i), V(st), NULL, V(t0), V(t1), V(reason), V(ts)])
 
@@ -312,8 +314,34 @@ class Scenario:
         j, a, i = self._existing_attempt(tag)
         t1 = self.inp.int(f'{tag}_end')
         reason = self.inp.int(f'{tag}_reason', options=[code(r) for r in model.REASONS])
+        self.last_args = {'job': j, 'att': a, 'inst': i}
         self.begin('unschedule_job')
         return self.w.call('unschedule_job', [1, V(j), V(a), V(i), V(t1), V(reason)])
+
+    def canceller_selects(self, j, db=None):
+        """canceller.py cancel_cancelled_ready_jobs_loop_body: group running, job Ready, not always_run, and the group is
+        cancelled or the job's cancelled flag is set."""
+        db = db if db is not None else self.db
+        out = False
+        for f in oracle.jobs(db):
+            grp_running = b_or(*[b_and(oracle.i_eq(f.group, g), db.t['job_groups'].rows[(1, g)].present,
+                                       oracle.i_eq(db.t['job_groups'].rows[(1, g)].vals['state'].v, code('running')))
+                                 for g in oracle.groups(db)])
+            ok = b_and(f.present, f.in_state('Ready'), grp_running, b_not(f.always_run),
+                       b_or(f.group_cancelled, f.marked_cancelled))
+            out = b_or(out, b_and(oracle.i_eq(j, f.j), ok))
+        return out
+
+    def op_cancel_ready(self, tag):
+        j = self._job(tag)
+        sel = self.canceller_selects(j)
+        for snap in self.snapshots:
+            sel = b_or(sel, self.canceller_selects(j, snap))
+        self._assume(sel)
+        ts = self.inp.int(f'{tag}_ts')
+        self.last_args = {'job': j}
+        self.begin('cancel_ready')
+        return self.w.call('mark_job_complete', [1, V(j), NULL, NULL, V(code('Cancelled')), NULL, NULL, NULL, V(code('cancelled')), V(ts)])
 
     def op_deactivate(self, tag):
         i = self._inst(tag)
@@ -409,7 +437,7 @@ class Scenario:
         'schedule': op_schedule, 'creating': op_creating, 'started': op_started, 'complete': op_complete,
         'unschedule': op_unschedule, 'deactivate': op_deactivate, 'activate': op_activate, 'cancel_group': op_cancel_group,
         'u2_create': op_update2_create, 'u2_jobs': op_update2_jobs, 'u2_commit': op_update2_commit, 'u2_groups': op_update2_groups, 'dup_create_batch': op_dup_create_batch,
-        'dup_jobs1': op_dup_jobs1, 'commit1': op_commit1,
+        'dup_jobs1': op_dup_jobs1, 'commit1': op_commit1, 'cancel_ready': op_cancel_ready,
     }
 
     def apply(self, kind, idx):
